@@ -72,6 +72,8 @@ static std::vector<ReqSpec> alloc_reqs()
   rq(2, "www.example.com", 16, AF_INET);  // 13 TXT
   rq(8, "fd00::1234:5", 12, AF_INET6);    // 14 gethostbyaddr, IPv6
   rq(9, "2001:db8::ff00:42:8329", 12, AF_INET6); // 15 getnameinfo, IPv6
+  rq(6, "hosted.example.com", 1, AF_UNSPEC);     // 16 getaddrinfo answered by the hosts file $CARES_HOSTS names
+  v.back().ai_flags = ARES_AI_ENVHOSTS;
   return v;
 }
 
@@ -89,6 +91,7 @@ static std::vector<Scenario> scenarios(bool quick)
     c.auto_io        = true;
     c.lookups        = "fb";
     c.hosts          = "10.7.7.7 hosted.example.com halias\nfd00::77 hosted.example.com\n";
+    c.env_hosts      = "10.8.8.8 hosted.example.com\n"; // a second hosts file, used by requests with ARES_AI_ENVHOSTS
     return c;
   };
   std::vector<Cfg> cfgs = { base("udp-edns", ARES_FLAG_EDNS), base("tcp", ARES_FLAG_USEVC) };
@@ -116,7 +119,7 @@ static std::vector<Scenario> scenarios(bool quick)
   for (auto &c : cfgs) {
     // initialisation alone (every option group of the configuration)
     v.push_back({ "init/" + c.name, c, {} });
-    for (int r : { 0, 1, 2, 3, 4, 5, 6, 7, 8, 9, 10, 12, 13, 14, 15 }) { // 14, 15: the IPv6 reverse lookups
+    for (int r : { 0, 1, 2, 3, 4, 5, 6, 7, 8, 9, 10, 12, 13, 14, 15, 16 }) { // 14, 15: the IPv6 reverse lookups; 16: the per-request hosts file
       if (quick && c.name != "udp-edns" && !(r == 2 || r == 6 || r == 4)) continue;
       v.push_back({ "req" + std::to_string(r) + "-answered/" + c.name, c, { S_req(r), S_auto(RK_DATA) } });
       if (!quick || r == 2 || r == 6) {
